@@ -425,7 +425,7 @@ func (p *Program) canon(fn *Func, x ast.Expr, depth int) string {
 				return "field:" + o.Name()
 			}
 			if o.Pkg() != nil && o.Parent() == o.Pkg().Scope() {
-				return "global:" + shortPkg(o.Pkg().Path()) + "." + o.Name()
+				return "global:" + shortPkg(o.Pkg().Path()) + "." + varDisplay(o)
 			}
 			if r := fn.root(); r.Recv != nil && o == r.Recv {
 				if r.bind != nil && r.bind.recv != nil {
@@ -437,8 +437,8 @@ func (p *Program) canon(fn *Func, x ast.Expr, depth int) string {
 				// parameter of a bound helper instance: the caller's argument
 				for f := fn; f != nil; f = f.Outer {
 					if i := paramIndex(f, o); i >= 0 {
-						if f.bind != nil && f.bind.call != nil && i < len(f.bind.call.Args) {
-							return p.canon(f.bind.caller, f.bind.call.Args[i], depth+1)
+						if f.bind != nil && f.bind.call != nil && i < len(f.bind.argv()) {
+							return p.canon(f.bind.caller, f.bind.argv()[i], depth+1)
 						}
 						break
 					}
@@ -561,7 +561,7 @@ func (p *Program) canon(fn *Func, x ast.Expr, depth int) string {
 		case *types.Const:
 			return constName(o)
 		case *types.Var:
-			return "global:" + shortPkg(o.Pkg().Path()) + "." + o.Name()
+			return "global:" + shortPkg(o.Pkg().Path()) + "." + varDisplay(o)
 		case *types.Func:
 			return "func:" + funcName(o)
 		case *types.TypeName:
@@ -864,8 +864,8 @@ func (p *Program) compositeOfIn(fn *Func, x ast.Expr) (*ast.CompositeLit, *Func)
 				moved := false
 				for f := fn; f != nil; f = f.Outer {
 					if k := paramIndex(f, vr); k >= 0 {
-						if f.bind != nil && f.bind.call != nil && k < len(f.bind.call.Args) {
-							fn, x, moved = f.bind.caller, f.bind.call.Args[k], true
+						if f.bind != nil && f.bind.call != nil && k < len(f.bind.argv()) {
+							fn, x, moved = f.bind.caller, f.bind.argv()[k], true
 						}
 						break
 					}
